@@ -38,31 +38,38 @@ def classify(st, body):
     return "other " + str(s)
 
 
-def probe(args):
+def probe(args, patient=False):
+    """patient=True: the second look at a directory whose first probe ended in a death or an unanswered request -- alone on the
+    machine and with long time limits.  The faults are deterministic (the same bytes), so what a loaded machine caused (a
+    start-up or an answer slower than the limit) does not come back, a real crash does."""
     binary, cache, port_stub, label, requests, san = args
     res = dict(label=label, started=False, died=None, answers=[], log="")
+    t_start, t_get = (120, 120) if patient else (20, 20)
     try:
-        srv = l3.Server(binary, cache, port_stub, start_timeout=20)
+        srv = l3.Server(binary, cache, port_stub, start_timeout=t_start)
     except Exception as e:
         res["died"] = "start-up: " + str(e)[:300].replace("\n", " ")
-        shutil.rmtree(cache, ignore_errors=True)
+        if patient:
+            shutil.rmtree(cache, ignore_errors=True)
         return res
     try:
         res["started"] = True
         for phase in ("before", "update", "after"):
             if phase == "update":
-                st, hd, body = srv.get("/updateCache?names=all", timeout=30)
+                st, hd, body = srv.get("/updateCache?names=all", timeout=t_get + 10)
                 res["answers"].append(("update", "noreply" if st is None else "answered"))
             else:
                 for r in requests:
-                    st, hd, body = srv.get(r, timeout=20)
+                    st, hd, body = srv.get(r, timeout=t_get)
                     res["answers"].append((phase, classify(st, body)))
             if not srv.alive():
                 res["died"] = "%s phase: exit status %s %s" % (phase, srv.exit_status(), srv.crash_report()[:300] if hasattr(srv, "crash_report") else "")
                 break
     finally:
         srv.stop()
-        shutil.rmtree(cache, ignore_errors=True)
+        suspicious = res["died"] or any(a == "noreply" for (_, a) in res["answers"])
+        if patient or not suspicious:
+            shutil.rmtree(cache, ignore_errors=True)      # (kept for the second look otherwise)
     return res
 
 
@@ -237,6 +244,17 @@ def main(pid, tier, seed, replay_path=None):
             kinds["inconsistency"] = kinds.get("inconsistency", 0) + 1
     with ThreadPoolExecutor(max_workers=int(os.environ.get("TRV_JOBS", "12"))) as ex:
         results = list(ex.map(probe, jobs))
+    # second look, one at a time, at every directory whose probe ended in a death or an unanswered request
+    second_looks, second_ok = 0, 0
+    for i, r in enumerate(results):
+        if r["died"] or any(a == "noreply" for (_, a) in r["answers"]):
+            if os.path.isdir(jobs[i][1]):
+                second_looks += 1
+                r2 = probe(jobs[i], patient=True)
+                if not (r2["died"] or any(a == "noreply" for (_, a) in r2["answers"])):
+                    second_ok += 1
+                    r2["first_look"] = r["died"] or "a request was not answered within 20 s"
+                    results[i] = r2
     stub.close()
     t_startup = time.time() - t0
     # ---- refresh-fault phase: the fault arrives while a healthy server runs, then /updateCache ---------------------------------
@@ -307,7 +325,9 @@ def main(pid, tier, seed, replay_path=None):
         path = cl.write_nofail_replay(pid, "proof obligations of Properties_%s.v (%d of %d)" % (pid, po["discharged"], po["obligations"]), po["log"])
         print("VIOLATION property=%s replay=%s no-failing-input-found" % (pid, path))
         viol.append(path); rc = 1
-    cov = dict(obligations=max(1, po["obligations"]), discharged=po["discharged"], checker_cmd=po["checker_cmd"], trusted_base=cl.TRUSTED_BASE,
+    cov = dict(second_looks=second_looks, second_looks_answered_normally=second_ok,
+               second_look_rule="a directory whose probe ended in a death or an unanswered request is probed once more, alone and with 120 s limits; the faults are deterministic, so only what comes back then is reported (a loaded machine can delay a start-up or an answer beyond the 20 s limits of the parallel run)",
+               obligations=max(1, po["obligations"]), discharged=po["discharged"], checker_cmd=po["checker_cmd"], trusted_base=cl.TRUSTED_BASE,
                theorems=po["theorems"], print_assumptions=po["assumptions"], open_statements=cl_open(pid),
                evaluations=len(results), distinct_nontrivial=len(set(r["label"] for r in results)),
                rule="fault enumeration on cache directories written from generated datasets: every file deleted / emptied; every pair of the six collection files the data status tests deleted together (and scenarios + all per-line files); truncation offsets, single-bit flips and zeroed ranges (all offsets and bits of the files <= 400 bytes in the thorough tier, samples otherwise); the cross-file inconsistencies of the property's list; for each: start the real binary%s, one request per endpoint, /updateCache?names=all, the requests again; distinct = distinct (fault kind, file, argument)" % (" (ASan+UBSan build)" if san else ""),
